@@ -247,10 +247,57 @@ pub fn run_memfs_observed(ops: &[&str]) -> String {
 // every symlink resolves to an existing non-link entry, and no argument passes through a symlink
 fn state_in_domain(s: &sys::verif::MemfsSnapshot) -> bool {
     let kinds: std::collections::HashMap<&PathBuf, bool> = s.entries.iter().map(|e| (&e.key, e.link)).collect();
-    s.entries.iter().filter(|e| e.link).all(|e| matches!(kinds.get(&e.alt), Some(false)))
+    // (a working directory that has been removed is not a state of the tree either: the process-level cwd of the
+    // real filesystem then cannot be read at all)
+    kinds.contains_key(&s.cwd) && s.entries.iter().filter(|e| e.link).all(|e| matches!(kinds.get(&e.alt), Some(false)))
+}
+
+// "confined to a sandbox directory": an argument that climbs above the root with '..' leaves the sandbox on the
+// real filesystem (whose root is not the sandbox root), and the root itself cannot be removed or moved
+fn stays_in_sandbox(memfs: &Memfs, op: &str) -> bool {
+    let f: Vec<&str> = op.split(':').collect();
+    let depth_of = |p: &std::path::Path| p.components().filter(|c| matches!(c, std::path::Component::Normal(_))).count() as i64;
+    let cwd = memfs.cwd().unwrap_or_default();
+    for i in path_fields(&f) {
+        if i >= f.len() {
+            continue;
+        }
+        let raw = unhex_s(f[i]);
+        let expanded = match sys::expand(&raw) {
+            Ok(x) => x,
+            Err(_) => continue,
+        };
+        let mut depth = if expanded.is_absolute() {
+            0
+        } else if f[0] == "symlink" && i == 2 {
+            match memfs.abs(unhex_s(f[1])) {
+                Ok(l) => depth_of(&l) - 1,
+                Err(_) => continue,
+            }
+        } else {
+            depth_of(&cwd)
+        };
+        for c in expanded.components() {
+            match c {
+                std::path::Component::ParentDir => depth -= 1,
+                std::path::Component::Normal(_) => depth += 1,
+                _ => {},
+            }
+            if depth < 0 {
+                return false;
+            }
+        }
+        if depth == 0 && i == 1 && ["remove", "remove_all", "move_p", "copy", "copy_b"].contains(&f[0]) {
+            return false;
+        }
+    }
+    true
 }
 
 fn args_in_domain(memfs: &Memfs, s: &sys::verif::MemfsSnapshot, op: &str) -> bool {
+    if !stays_in_sandbox(memfs, op) {
+        return false;
+    }
     let f: Vec<&str> = op.split(':').collect();
     let links: std::collections::HashSet<&PathBuf> = s.entries.iter().filter(|e| e.link).map(|e| &e.key).collect();
     for i in path_fields(&f) {
